@@ -283,6 +283,8 @@ def check_run(s: S.Sim, profile: str, res: CompResult, ops: list[str]) -> None:
 
     crashy = bool(f.dead)
     n = f.n
+    # ---- C16: the command streams -- facts about what was put on the wire hold however the run ended (stand-off, internal error)
+    check_wire(s, f, fire)
     # ---- C02 / C17: the run ends, and not with an internal error
     if kind == "standoff":
         props = ["C02"] + (["C17"] if profile == "lifecycle" else []) + (["C15"] if cfg.requeue else [])
@@ -349,7 +351,6 @@ def check_run(s: S.Sim, profile: str, res: CompResult, ops: list[str]) -> None:
     stopped = kind == "interrupted"
     over_budget = s.dsession._summary_report is not None
     # ---- C16: wire discipline (all modes)
-    check_wire(s, f, fire)
     # ---- C12 identities
     ids_ = [w.id for w in s.workers]
     if len(set(ids_)) != len(ids_) or any(not (i.startswith("gw") and i[2:].isdigit()) for i in ids_):
